@@ -135,7 +135,7 @@ func fieldsOfKind(c *Ctx, rel, typ string, pred func(t types.Type) bool) []strin
 	if p == nil {
 		return nil
 	}
-	tn, _ := p.Types.Scope().Lookup(typ).(*types.TypeName)
+	tn := c.lookupType(rel, typ)
 	if tn == nil {
 		return nil
 	}
@@ -146,7 +146,7 @@ func fieldsOfKind(c *Ctx, rel, typ string, pred func(t types.Type) bool) []strin
 	var out []string
 	for i := 0; i < st.NumFields(); i++ {
 		if pred(st.Field(i).Type()) {
-			out = append(out, st.Field(i).Name())
+			out = append(out, canonField(tn.Type(), st.Field(i).Name()))
 		}
 	}
 	return out
